@@ -72,6 +72,9 @@ func ParseFile(inputPath string) (areas []textArea, err error) {
 		}
 
 		for _, field := range structDecl.Fields.List {
+			if field.Tag == nil { // 没有 tag 字面量的字段不处理
+				continue
+			}
 			var comments []*ast.Comment
 			// 字段的注释
 			if field.Comment != nil {
